@@ -172,6 +172,21 @@ def sniffers(ctx):
         kinds.add(('meta', want[1] is None, len(pre) > 1000))
         if got != want:
             ctx.violation('bounded: getMetaInfo returns (media type, lower-case charset) of the first content-type meta element', f'{doc[:40]!r}...{doc0!r} (element at offset {len(pre)}): {got!r} != {want!r}', True, {'document': doc})
+    # the answer for one document is a function of THAT document: whatever was examined before (a page cut off inside <style>, <script>, a
+    # comment, an attribute value, a tag; a complete page) leaves nothing behind
+    earlier = ['<html><head><style>a{', '<script>var x = "', '<!-- open comment', '<meta http-equiv="Content-Type" content="text/html;charset=', '<title>t', '<html><head><meta http-equiv="Content-Type" content="text/html;charset=earlier"></head></html>',
+               '<textarea>', '<![CDATA[ x', '<?php ']
+    for first in earlier:
+        for doc0, want in metas:
+            try:
+                E.getMetaInfo(first)
+            except Exception:  # noqa: BLE001  (what the first call does with a damaged page is not this clause)
+                pass
+            n += 1
+            got = E.getMetaInfo(doc0)
+            kinds.add(('meta after', first[:12], want[1] is None))
+            if got != want:
+                ctx.violation('bounded: getMetaInfo of a document does not depend on the documents examined before', f'after getMetaInfo({first!r}): getMetaInfo({doc0!r}) = {got!r} != {want!r}', True, {'history': [first, doc0]})
     # encodingByMediaType over the class table
     from bounded.c20 import MEDIA as _M
     for media, tt in _M:
@@ -180,5 +195,5 @@ def sniffers(ctx):
         if got != default_encoding(tt if media is not None else OTHER):
             ctx.violation('bounded: encodingByMediaType = documented default of the media-type class', f'{media!r}: {got!r}', True, {'media_type': media})
     ctx.bounded.append({'name': 'sniffers', 'evaluations': n, 'distinct_nontrivial': len(kinds),
-                        'rule': 'detectXMLEncoding on 20 heads x 6 tails (incl. declaration look-alikes on later lines) x 4 stream positions x includeDefault against a native oracle; getMetaInfo on 6 meta documents x 6 preambles of up to 4 100 characters, encodingByMediaType on the class table',
+                        'rule': 'detectXMLEncoding on 20 heads x 6 tails (incl. declaration look-alikes on later lines) x 4 stream positions x includeDefault against a native oracle; getMetaInfo on 6 meta documents x 6 preambles of up to 4 100 characters and after each of 9 earlier documents (cut-off pages), encodingByMediaType on the class table',
                         'samples': samples, 'bound': 'fixed document list'})
